@@ -802,4 +802,18 @@ def check_C01(ctx):
                             % L, assumptions=TRUSTED)
 
 
-CHECKS = {"C11": check_C11, "C09": check_C09, "C16": check_C16, "C17": check_C17, "C15": check_C15, "C10": check_C10, "C12": check_C12, "C08": check_C08, "C13": check_C13, "C20": check_C20, "C05": check_C05, "C19": check_C19, "C06": check_C06, "C07": check_C07, "C14": check_C14, "C18": check_C18, "C03": check_C03, "C02": check_C02, "C04": check_C04, "C01": check_C01}
+# --------------------------------------------------------------------------- EXT (beyond the listed properties)
+
+def check_EXT(ctx):
+    n = 2 if ctx.quick else 3
+    cases, _ = ctx.tlc_mc("MC_Ext", mc_cfg({"N": n}, ["Decided", "TwinLaw", "Terminates", "EmitCase"], props=["BlockSilent"]), timeout=3000)
+    ctx.validate(ctx.run_cases(cases))
+    return finish(ctx, rule="MC_Ext: every program of <= %d statements over a pool of 23 statements that use constructs registered "
+                            "through the embedding API (RegisterTag / RegisterBlock / RegisterFilter; render.Context: TagName, TagArgs, "
+                            "EvaluateString, Set, Get, ExpandTagArg, Errorf, SourceFile, RenderFile, InnerString), run step by step on the "
+                            "render machine and compared with its twin in standard constructs; the implementation renders the "
+                            "program, its twin, and the program under custom delimiters, validated by TraceRender" % n,
+                  assumptions=TRUSTED)
+
+
+CHECKS = {"EXT": check_EXT, "C11": check_C11, "C09": check_C09, "C16": check_C16, "C17": check_C17, "C15": check_C15, "C10": check_C10, "C12": check_C12, "C08": check_C08, "C13": check_C13, "C20": check_C20, "C05": check_C05, "C19": check_C19, "C06": check_C06, "C07": check_C07, "C14": check_C14, "C18": check_C18, "C03": check_C03, "C02": check_C02, "C04": check_C04, "C01": check_C01}
